@@ -281,3 +281,67 @@ V("c04-keys-cache-kept", "C04", "R04.8", "dask_array/_collection.py",
   'for cached in ("_lowered_expr", "_lowered_expr_optimize_graph", "_cached_dask_keys"):', 'for cached in ("_lowered_expr", "_lowered_expr_optimize_graph"):', expect="_cached_dask_keys")
 V("c06-token-lossy-wrapper", "C06", "R06.1", "dask_array/reductions/_reduction.py",
   "                self.func, self.array, self.split_every, self.keepdims, self.dtype\n", "                self.func, self.array, tuple(sorted(self.split_every)), self.keepdims, self.dtype\n", expect="PartialReduce::split_every")
+
+# ---------------------------------------------------------------------------- C02
+V("c02-elemwise-input-id-identity", "C02", "R02.2", "dask_array/_blockwise.py",
+  "        for arrays with fewer dimensions or single-block dimensions.\n        \"\"\"\n        return self._broadcast_block_id(dep, block_id)", "        for arrays with fewer dimensions or single-block dimensions.\n        \"\"\"\n        return block_id", expect="Elemwise")
+V("c02-new-fusable-permuting-class", "C02", "R02.3", "dask_array/_expr.py",
+  None, "\n\nclass _Swap01(ArrayExpr):\n    _parameters = [\"array\"]\n    _is_blockwise_fusable = True\n\n    @property\n    def chunks(self):\n        return self.array.chunks[::-1]\n\n    def _input_block_id(self, dep, block_id):\n        return block_id[::-1]\n\n    def _task(self, key, block_id):\n        return Task(key, np.transpose, TaskRef((self.array._name, *block_id[::-1])))\n\n    def _layer(self):\n        return {}\n", expect="_Swap01")
+V("c02-delayed-guard-dropped", "C02", "R02.4", "dask_array/_blockwise.py",
+  "        if any(isinstance(op, Delayed) for op in self.operands):\n            return False\n", "", expect="_is_blockwise_fusable")
+V("c02-conflict-skip-pairs", "C02", "R02.4", "dask_array/_blockwise.py",
+  "    if len(group) <= 1:\n        return group\n\n    expr_names", "    if len(group) <= 2:\n        return group\n\n    expr_names", expect="_remove_conflicting_exprs")
+V("c02-accept-slice-none-guard-dropped", "C02", "R02.4", "dask_array/_blockwise.py",
+  "        # Don't handle None/newaxis\n        if any(idx is None for idx in index):\n            return None\n\n        # Pad index to full output length", "        # Pad index to full output length", expect="Blockwise._accept_slice")
+V("c02-fused-ignores-input-block-id", "C02", "R02.3", "dask_array/_blockwise.py",
+  "                    dep_block_id = expr._input_block_id(dep, my_block_id)", "                    dep_block_id = my_block_id", expect="FusedBlockwise._compute_block_ids")
+V("c02-fused-deps-include-fused", "C02", "R02.5", "dask_array/_blockwise.py",
+  "                if dep._name not in fused_names and dep._name not in seen:", "                if dep._name not in seen:", expect="FusedBlockwise.dependencies")
+V("c02-twin-rename-local-in-guard", "C02", "-", "dask_array/_blockwise.py",
+  "        out_idx_set = set(self.out_ind)\n        if self.new_axes:\n            out_idx_set |= set(self.new_axes.keys())\n        for arr, ind in toolz.partition(2, self.args):\n            if ind is not None and hasattr(arr, \"numblocks\"):\n                for dim, i in enumerate(ind):\n                    if i not in out_idx_set and arr.numblocks[dim] > 1:",
+  "        kept = set(self.out_ind)\n        if self.new_axes:\n            kept |= set(self.new_axes.keys())\n        for arr, ind in toolz.partition(2, self.args):\n            if ind is not None and hasattr(arr, \"numblocks\"):\n                for dim, i in enumerate(ind):\n                    if i not in kept and arr.numblocks[dim] > 1:", twin=True)
+
+# ---------------------------------------------------------------------------- C17
+V("c17-realign-outside-coarse", "C17", "R17.1", "dask_array/_expr.py",
+  "    if consolidate is coarse_blockdim and policy != \"coarse\":", "    if policy != \"coarse\":", expect="unify_chunks_expr")
+V("c17-limit-narrowed", "C17", "R17.2", "dask_array/_expr.py",
+  "    if limit and consolidate is coarse_blockdim:", "    if limit and consolidate is coarse_blockdim and fine is None:", expect="unify_chunks_expr")
+V("c17-lower-skips-unify", "C17", "R17.3", "dask_array/_blockwise.py",
+  "        if self.align_arrays:\n            _, arrays, changed = unify_chunks_expr(*self.args)\n            if changed:\n                args = []", "        if self.align_arrays and len(self.args) > 4:\n            _, arrays, changed = unify_chunks_expr(*self.args)\n            if changed:\n                args = []", expect="Blockwise._lower")
+V("c17-operand-reused-by-name", "C17", "R17.5", "dask_array/_expr.py",
+  "                if not (target_has_nan and source_is_known):\n                    a = a.rechunk(chunks)\n                    changed = True\n        arrays.append(a)",
+  "                if not (target_has_nan and source_is_known):\n                    a = _done.setdefault(a._name, a.rechunk(chunks))\n                    changed = True\n        arrays.append(a)", expect="unify_chunks_expr")
+V("c17-refine-policy-coarsens", "C17", "R17.1", "dask_array/_expr.py",
+  "    consolidate = common_blockdim if policy == \"refine\" else coarse_blockdim", "    consolidate = common_blockdim if policy == \"refine\" and not warn else coarse_blockdim", expect="unify_chunks_expr")
+V("c17-twin-rename", "C17", "-", "dask_array/_expr.py",
+  "                target_has_nan = any(c is not None and np.isnan(sum(c)) for c in chunks)\n                source_is_known = not any(np.isnan(sum(c)) for c in a.chunks)\n                if not (target_has_nan and source_is_known):",
+  "                to_unknown = any(c is not None and np.isnan(sum(c)) for c in chunks)\n                from_known = not any(np.isnan(sum(c)) for c in a.chunks)\n                if not (to_unknown and from_known):", twin=True)
+
+# ---------------------------------------------------------------------------- C27
+V("c27-nan-unguarded", "C27", "R27.2", "dask_array/_rechunk.py",
+  "        lo, _ = _rechunk_stage_transfer(old, new, itemsize)\n        return TransferBytes(lo, self.array.nbytes)", "        lo, _ = _rechunk_stage_transfer(old, new, itemsize)\n        return TransferBytes(lo, self.array.nbytes if lo else math.nan)", expect="P2PRechunk.transfer_bytes")
+V("c27-alias-cost-deleted", "C27", "R27.3", "dask_array/_expr.py",
+  "    @functools.cached_property\n    def transfer_bytes(self):\n        # Pure 1:1 alias layer -- no data moves.\n        return TransferBytes(0.0, 0.0)\n\n    def _frisky_layer(self):\n        from dask_array._frisky.blocks import BlocksLayer\n\n        # 1:1 alias of every block (same coord), like ChunksOverride.",
+  "    def _frisky_layer(self):\n        from dask_array._frisky.blocks import BlocksLayer\n\n        # 1:1 alias of every block (same coord), like ChunksOverride.", expect="RootAlias")
+V("c27-returns-tuple", "C27", "R27.1", "dask_array/_expr.py",
+  "                hi += nbytes\n        return TransferBytes(lo, hi)", "                hi += nbytes\n        return lo + hi", expect="ArrayExpr.transfer_bytes")
+V("c27-moved-fraction-guard-folded", "C27", "R27.4", "dask_array/_expr.py",
+  "    total = sum(src)\n    if not total or src == dst:\n        return 0.0\n", "    if src == dst:\n        return 0.0\n    total = sum(src)\n", expect="moved_fraction")
+V("c27-twin-comment", "C27", "-", "dask_array/_expr.py",
+  "    total = sum(src)\n    if not total or src == dst:\n        return 0.0\n", "    total = sum(src)\n    if src == dst or not total:  # nothing moves\n        return 0.0\n", twin=True)
+
+# ---------------------------------------------------------------------------- C28
+V("c28-slice-nan-loop-deleted", "C28", "R28.1", "dask_array/slicing/_basic.py",
+  "    for dim, ind in zip(shape, index):\n        if np.isnan(dim) and ind != slice(None, None, None):\n            raise ValueError(f\"Arrays chunk sizes are unknown: {shape}{unknown_chunk_message}\")\n", "", expect="slice_slices_and_integers")
+V("c28-validate-rechunk-and", "C28", "R28.1", "dask_array/_rechunk.py",
+  "            if not (math.isnan(old_shape) and math.isnan(new_shape)) or not np.array_equal(", "            if not (math.isnan(old_shape) and math.isnan(new_shape)) and not np.array_equal(", expect="_validate_rechunk")
+V("c28-setitem-guard-weakened", "C28", "R28.1", "dask_array/_collection.py",
+  "        if np.isnan(self.shape).any():\n            raise ValueError(f\"Arrays chunk sizes are unknown. {unknown_chunk_message}\")", "        if np.isnan(self.shape).all():\n            raise ValueError(f\"Arrays chunk sizes are unknown. {unknown_chunk_message}\")", expect="Array.__setitem__")
+V("c28-known-to-unknown-rechunk", "C28", "R28.2", "dask_array/_expr.py",
+  "                if not (target_has_nan and source_is_known):\n                    a = a.rechunk(chunks)", "                if not target_has_nan or source_is_known:\n                    a = a.rechunk(chunks)", expect="unify_chunks_expr")
+V("c28-rechunk-chunks-skips-validate", "C28", "R28.2", "dask_array/_expr.py",
+  "        result = Rechunk(self, resolved_chunks, threshold, block_size_limit, balance, method)\n        # Ensure that chunks are compatible\n        result.chunks\n        return result", "        result = Rechunk(self, resolved_chunks, threshold, block_size_limit, balance, method)\n        return result", expect="ArrayExpr.rechunk")
+V("c28-compute-chunk-sizes-direct-store", "C28", "R28.3", "dask_array/_collection.py",
+  "        self._replace_expr(ChunksOverride(self._expr, new_chunks))\n\n        return self", "        self._replace_expr(ChunksOverride(self._lowered_expr, new_chunks))\n\n        return self", expect="compute_chunk_sizes")
+V("c28-twin-reordered-conjuncts", "C28", "-", "dask_array/slicing/_basic.py",
+  "        if np.isnan(dim) and ind != slice(None, None, None):", "        if ind != slice(None, None, None) and np.isnan(dim):", twin=True)
